@@ -47,3 +47,11 @@ NATIVE['n_c16_reloc'] = dict(
     functions=[('crates/cairo-lang-sierra-to-casm/src/relocations.rs', 'impl Relocation', 'apply'),
                ('crates/cairo-lang-sierra-to-casm/src/relocations.rs', None, 'relocate_instructions')],
 )
+NATIVE['n_c16_oracle_vs_vm'] = dict(
+    crate='cairo-lang-runner',
+    host='crates/cairo-lang-runner/src/lib.rs',
+    harness='native/cairo-lang-runner/n_c16_oracle_vs_vm.rs',
+    props={'C16'},
+    bound='3 hand-written CASM snippets + up to 8 compiled Sierra examples run on the real cairo-vm; every trace step compared with the oracle',
+    functions=[],
+)
